@@ -577,7 +577,7 @@ errreturn:
 }
 
 func ioInput(L *LState) int {
-	if L.GetTop() == 0 {
+	if L.Get(1) == LNil { // lua_isnoneornil: an explicit nil is an absent argument
 		L.Push(fileDefIn(L))
 		return 1
 	}
@@ -638,7 +638,7 @@ func ioLinesIter(L *LState) int {
 }
 
 func ioLines(L *LState) int {
-	if L.GetTop() == 0 {
+	if L.Get(1) == LNil { // lua_isnoneornil: an explicit nil is an absent argument
 		// like file:lines() on the default input: the iterator holds the file and does not close it
 		L.Push(L.NewClosure(fileLinesIter, L.Get(UpvalueIndex(1)), fileDefIn(L)))
 		return 1
@@ -760,7 +760,7 @@ func ioTmpFile(L *LState) int {
 }
 
 func ioOutput(L *LState) int {
-	if L.GetTop() == 0 {
+	if L.Get(1) == LNil { // lua_isnoneornil: an explicit nil is an absent argument
 		L.Push(fileDefOut(L))
 		return 1
 	}
